@@ -170,9 +170,9 @@ def build_and_run(case, v: int, seed: int):
                 reg = None if case["reg"] == "default" else (rfc7797.JWSRegistry if fam == "7797" else jws.JWSRegistry)(strict_check_header=False)
             if other and oalg not in ("HS256", "RS256", "ES256"):
                 reg = (rfc7797.JWSRegistry if fam == "7797" else jws.JWSRegistry)(algorithms=list(R.JWS_ALGS), strict_check_header=case["reg"] == "default")
-            if jwt: return jwtm.decode(tok, key, registry=reg)
+            if jwt: return jwtm.decode(J.F(tok, v), key, registry=reg)
             mod = rfc7797 if fam == "7797" else jws
-            return mod.deserialize_compact(tok, key, registry=reg) if ser == "compact" else mod.deserialize_json(tok, key, registry=reg)
+            return mod.deserialize_compact(J.F(tok, v), key, registry=reg) if ser == "compact" else mod.deserialize_json(tok, key, registry=reg)
         return classify(call)
     # ---------------- JWE family
     alg, enc = jwe_alg_for({**slot, "v": v} if kind == "json_shape" else slot, v)
@@ -292,8 +292,8 @@ def build_and_run(case, v: int, seed: int):
 
     def call():
         reg = jwe.JWERegistry(algorithms=names, strict_check_header=case["reg"] == "default", verify_all_recipients=case["reg"] != "lenient_any")
-        if jwt: return jwtm.decode(tok, key, registry=reg)
-        return jwe.decrypt_compact(tok, key, registry=reg, **kw) if ser == "compact" else jwe.decrypt_json(tok, key, registry=reg, **kw)
+        if jwt: return jwtm.decode(J.F(tok, v), key, registry=reg)
+        return jwe.decrypt_compact(J.F(tok, v), key, registry=reg, **kw) if ser == "compact" else jwe.decrypt_json(tok, key, registry=reg, **kw)
     return classify(call)
 
 
